@@ -64,6 +64,7 @@ func checkC13(c *Ctx) {
 	c.Rule("R5", "header layout agreement between writer and reader (magic, algorithm byte, CR LF; cpsHdrLen)")
 	c.Rule("R6", "decompress hook registered before/independently of the Enable test; skip set disjoint from value-returning commands")
 	c.Rule("R7", "pooled writer closed exactly once on every path; pooled buffer bytes never escape")
+	c.Rule("R8", "reply walk is total: the array arm of the reply decompression recurses into every element, in place or with write-back")
 
 	doFn := p.Func(redisPkg, "(*compressFilter).Do")
 	compFn := p.Func(redisPkg, "(*compressFilter).compress")
@@ -616,6 +617,7 @@ func checkC13(c *Ctx) {
 	c.Expect("R4", 3)
 	c.Expect("R5", 5)
 	c.Expect("R6", 3)
+	checkReplyWalk(c, "R8")
 }
 
 // checkCpsHeader: writer builds magic ‖ alg ‖ CRLF; reader tests/strips the same offsets.
@@ -742,3 +744,116 @@ func checkCpsHeader(c *Ctx, decFn *ssa.Function) {
 
 // onlyVia: pred is reached from T without leaving the region T dominates (used to map switch arms to phi edges).
 func onlyVia(T, pred *ssa.BasicBlock) bool { return T.Dominates(pred) }
+
+// checkReplyWalk (C13.R8): a reply can nest values at any depth (HSCAN: [cursor, [field, value, ...]]; EXEC; nested
+// arrays). The reply decompression must reach every level: its array arm loops over the elements and, for each
+// element, calls a function that leads back to the decompression function itself (recursion), on the element in place
+// or on a copy that is stored back into the array.
+func checkReplyWalk(c *Ctx, rule string) {
+	p := c.P
+	D := p.Func(redisPkg, "(*compressFilter).Decompress")
+	if D == nil {
+		c.Unresolved(rule, "(*compressFilter).Decompress")
+		return
+	}
+	arrF := p.Field(redisPkg, "RespValue", "Array")
+	// functions from which D is reachable again (the recursion)
+	recursive := func(g *ssa.Function) bool {
+		if g == D {
+			return true
+		}
+		return p.reachable([]*ssa.Function{g}, func(h *ssa.Function) bool {
+			return h.Pkg == nil || h.Pkg.Pkg.Path() != modPath+"/"+redisPkg
+		})[D]
+	}
+	// loops over resp.Array inside D (or helpers it calls without recursion): IndexAddr on a load of the Array field
+	found, okRec, okBack := false, false, true
+	var at token.Pos = D.Pos()
+	for _, fn := range append([]*ssa.Function{D}, staticCalleesDeep(D, 2)...) {
+		if fn.Pkg == nil || fn.Pkg.Pkg.Path() != modPath+"/"+redisPkg {
+			continue
+		}
+		eachInstr(fn, func(_ *ssa.BasicBlock, _ int, in ssa.Instruction) {
+			call, ok := in.(*ssa.Call)
+			if !ok {
+				return
+			}
+			g := calleeFn(call.Common())
+			if g == nil || len(call.Call.Args) == 0 {
+				return
+			}
+			// argument: address of an array element, or of a copy of one
+			var elemArg ssa.Value
+			for _, a := range call.Call.Args {
+				if modType(a.Type(), redisPkg, "RespValue") || (func() bool {
+					pt, ok := a.Type().Underlying().(*types.Pointer)
+					return ok && modType(pt.Elem(), redisPkg, "RespValue")
+				})() {
+					if derives(a, func(v ssa.Value) bool {
+						if ia, ok := v.(*ssa.IndexAddr); ok {
+							f, _ := loadedField(ia.X)
+							return f == arrF
+						}
+						return false
+					}) {
+						elemArg = a
+					}
+					// a copy: Alloc into which an element was stored
+					if al, isAl := a.(*ssa.Alloc); isAl {
+						for _, r := range *al.Referrers() {
+							if st, isSt := r.(*ssa.Store); isSt && st.Addr == ssa.Value(al) {
+								if derives(st.Val, func(v ssa.Value) bool {
+									if ia, ok := v.(*ssa.IndexAddr); ok {
+										f, _ := loadedField(ia.X)
+										return f == arrF
+									}
+									if nx, ok := v.(*ssa.Next); ok {
+										_ = nx
+										return true
+									}
+									return false
+								}) {
+									elemArg = a
+								}
+							}
+						}
+					}
+				}
+			}
+			if elemArg == nil {
+				return
+			}
+			found = true
+			at = call.Pos()
+			if recursive(g) {
+				okRec = true
+			}
+			// copy form: the copy must be stored back into the array after the call
+			if al, isAl := elemArg.(*ssa.Alloc); isAl {
+				back := false
+				for _, r := range *al.Referrers() {
+					if ld, isLd := r.(*ssa.UnOp); isLd && ld.Op == token.MUL {
+						for _, r2 := range *ld.Referrers() {
+							if st, isSt := r2.(*ssa.Store); isSt {
+								if ia, isIA := st.Addr.(*ssa.IndexAddr); isIA {
+									if f, _ := loadedField(ia.X); f == arrF && instrDominates(call, st) {
+										back = true
+									}
+								}
+							}
+						}
+					}
+				}
+				if !back {
+					okBack = false
+				}
+			}
+		})
+	}
+	if !found {
+		c.Fail(rule, "array arm of the reply decompression", at, "the reply decompression never applies anything to the elements of an array reply: MGET / HGETALL / LRANGE values come back compressed")
+		return
+	}
+	c.Check(okRec, rule, "array arm recurses", at, "each element is handed to a function that leads back to the reply decompression", "the elements of an array reply are processed by a function that does not descend further: values nested one level deeper (HSCAN, nested multi-bulk) are returned to the client still compressed")
+	c.Check(okBack, rule, "decompressed copy stored back", at, "in place, or copy stored back into the array", "an element is decompressed on a copy that is not stored back into the array: the client receives the compressed bytes")
+}
